@@ -483,6 +483,13 @@ class Summariser:
                 return f"{rt} < {lt}", False
         if isinstance(e, ast.Name) and e.id in self.list_vars:
             return f"truthy {e.id}", True
+        # a list / dict / set built from every element of a tuple (`fields(T)`) is empty exactly when the tuple is
+        if isinstance(e, (ast.ListComp, ast.DictComp, ast.SetComp)) and len(e.generators) == 1 and not e.generators[0].ifs \
+                and isinstance(e.generators[0].iter, ast.Call) and norm(e.generators[0].iter.func) == "fields":
+            return self.atom(e.generators[0].iter)
+        if isinstance(e, ast.Call) and norm(e.func) in ("list", "tuple") and len(e.args) == 1 and isinstance(e.args[0], ast.Call) \
+                and norm(e.args[0].func) == "fields":
+            return self.atom(e.args[0])
         if isinstance(e, ast.Call) and norm(e.func) == "bool" and len(e.args) == 1:
             return self.atom(e.args[0])
         if isinstance(e, ast.Call):
